@@ -61,9 +61,7 @@ def rule_T3(ctx, rep, config="c-lib"):
             continue
         if off:
             # only call: nothing reachable from here calls syntax_error again
-            after = set()
-            for s in i.block.succs:
-                after |= f.reachable_from(s)
+            after = _reachable_following_flags(f, i.block)
             again = [j for (g, j) in sites if g is f and j.block.name in after]
             if again:
                 rep.violation("T3", key, "with error recovery off the parser can report a second syntax error (or continue parsing) after the first one", where=i.where(),
@@ -363,3 +361,61 @@ def rule_first_ignored(ctx, rep, config="c-lib"):
                       "small, it can be negative, and build_pl reads toks[-1]" % (fld.split(".")[-1], bad[0].where()), where=s_.where(), witness=[c.where() for c in bad][:4] + [s_.where()])
     else:
         rep.ok("T3-start", "error_recovery/first-ignored", sample={"member": fld, "state_creations": n})
+
+
+def _reachable_following_flags(f, start):
+    """blocks reachable from the end of `start', following a truth value that is carried in a phi of constants (`ok = FALSE; ... if (ok) continue; else break;',
+    an inlined helper that returns whether to go on) along the path it was set on"""
+    def ev(op, env, depth=0):
+        k = const_int(op)
+        if k is not None:
+            return k
+        if op.get("k") != "i" or depth > 6:
+            return None
+        if op["v"] in env:
+            return env[op["v"]]
+        x = f.insts.get(op["v"])
+        if x is None:
+            return None
+        if x.op in ("zext", "sext", "trunc"):
+            v = ev(x.ops[0], env, depth + 1)
+            return None if v is None else (v & 1 if x.ty == "i1" else v)
+        if x.op == "icmp" and x.d["pred"] in ("eq", "ne"):
+            a, b = ev(x.ops[0], env, depth + 1), ev(x.ops[1], env, depth + 1)
+            if a is None or b is None:
+                return None
+            return int((a == b) == (x.d["pred"] == "eq"))
+        if x.op == "xor" and x.ty == "i1":
+            a = ev(x.ops[0], env, depth + 1)
+            return None if a is None else 1 - a
+        return None
+    seen = set()
+    out = set()
+    work = [(start.name, s_, ()) for s_ in start.succs]
+    while work:
+        pb, bn, envt = work.pop()
+        env = dict(envt)
+        b = f.bmap[bn]
+        for x in b.insts:
+            if x.op != "phi":
+                break
+            env.pop(x.id, None)
+            for (v, p_) in x.d["incoming"]:
+                if p_ == pb:
+                    val = ev(v, dict(envt))
+                    if val is not None:
+                        env[x.id] = val
+        key = (bn, tuple(sorted(env.items())))
+        if key in seen or len(seen) > 20000:
+            continue
+        seen.add(key)
+        out.add(bn)
+        t = b.term
+        succs = list(b.succs)
+        if t is not None and t.op == "br" and len(t.ops) == 3:
+            c = ev(t.ops[0], env)
+            if c is not None:
+                succs = [t.ops[2]["v"]] if c else [t.ops[1]["v"]]
+        for s_ in succs:
+            work.append((bn, s_, tuple(sorted(env.items()))))
+    return out
